@@ -1119,7 +1119,7 @@ def run(ctx):
     _reported.clear()
     stages = [
         ('classes', lambda: run_classes(ctx)),
-        ('esc-matrix', lambda: run_esc_matrix(ctx, 16 if ctx.quick else 1)),
+        ('esc-matrix', lambda: run_esc_matrix(ctx, 32 if ctx.quick else 1)),
         ('peer-esc', lambda: run_peer_esc(ctx, 500 if ctx.quick else 20000)),
         ('orders', lambda: run_orders(ctx, 1500 if ctx.quick else 12000, 16 if ctx.quick else 4)),
         ('continuation', lambda: run_continuation(ctx, 3 if ctx.quick else 5)),
